@@ -582,7 +582,7 @@ class PathUnit:
             native[rf] = (norm(r1[1]), vals)
         if not files:
             return 0, []
-        r2 = run([sys.executable, os.path.join(HERE, "llpath.py"), ll, e.name, "--replay", ",".join(files), "--wall", "60"] + (["--opaque", opq] if opq else []), timeout=300)
+        r2 = run([sys.executable, os.path.join(HERE, "llpath.py"), ll, e.name, "--replay", ",".join(files), "--support", self.support_ll, "--wall", "60"] + (["--opaque", opq] if opq else []), timeout=300)
         cur = None
         got = {}
         for l in r2[1].splitlines():
@@ -622,6 +622,11 @@ class PathUnit:
         if self.opaque:
             opq = base + ".opaque"
             open(opq, "w").write("\n".join(self.opaque) + "\n")
+        # out-of-line libstdc++ helpers (red-black tree maintenance) as IR
+        self.support_ll = base + "_support.ll"
+        rc, so, se, dt = run([CLANG] + CLANG_FLAGS + ["-fno-exceptions", "-S", "-emit-llvm", os.path.join(HERE, "models", "support.cpp"), "-o", self.support_ll], timeout=120)
+        if rc != 0:
+            raise RuntimeError("clang failed for support.cpp:\n%s" % se[-2000:])
         var = _SmtNative(work, self, base)
         futs = []
         for e in self.entries:
@@ -629,7 +634,7 @@ class PathUnit:
                 rep.errors.append("unit %s: entry %s not found" % (self.name, e.name))
                 continue
             out = base + "_" + e.name + ".json"
-            cmd = [sys.executable, os.path.join(HERE, "llpath.py"), ll, e.name, "--json", out, "--wall", str(e.wall), "--max-steps", str(e.max_steps), "--max-paths", str(e.max_paths)]
+            cmd = [sys.executable, os.path.join(HERE, "llpath.py"), ll, e.name, "--support", self.support_ll, "--json", out, "--wall", str(e.wall), "--max-steps", str(e.max_steps), "--max-paths", str(e.max_paths)]
             if opq:
                 cmd += ["--opaque", opq]
             futs.append((e, out, pool.submit(run, cmd, e.wall + 120)))
